@@ -6,7 +6,7 @@ import concurrent.futures as cf, glob, os, shutil, subprocess, sys, tempfile
 HERE = os.path.dirname(os.path.abspath(__file__))
 REPO = os.environ.get("VERIF_REPO", "/repo")
 BIN = os.path.join(HERE, "bin", "vxcheck")
-ENV = dict(os.environ, GOFLAGS="-mod=mod", GOPROXY="off", GOSUMDB="off", GOTOOLCHAIN="local", GOWORK="off")
+ENV = dict(os.environ, GOFLAGS="-mod=mod -trimpath", GOPROXY="off", GOSUMDB="off", GOTOOLCHAIN="local", GOWORK="off")
 props = subprocess.run([BIN, "-list"], capture_output=True, text=True).stdout.split()
 files = []
 for a in sys.argv[1:]:
